@@ -309,6 +309,7 @@ static void wrapreal(void)
 	vh_rng_t r;
 	vh_rng_seed(&r, vh_opt.seed, 22, 0);
 	vh_case_key("wrapreal");
+		vh_case_budget(3600);
 	vh_case_replay("--extra wrapreal");
 	ctx_desc = "wrapreal";
 	mlog_clear();
